@@ -261,6 +261,21 @@ IStr(r, idx) ==
          V("C10", idx, "istr", "case-insensitive string does not fold exactly the ASCII letters", <<w, r.res, r.n>>, pat))
 
 -----------------------------------------------------------------------------
+(* C14 / C20: the shipped grammars against the RFC languages *)
+J(w) == INSTANCE Json8259 WITH W <- w
+R(w) == INSTANCE Uri3986 WITH W <- w
+JsonRec(r, idx) ==
+   LET want == J(r.w)!IsJsonText IN
+   If(r.res \notin {0, 1}, V("C14", idx, "json", "the JSON grammar threw", r.w, r.res))
+   \o If(want /\ r.res = 0, V("C14", idx, "json", "RFC 8259 JSON text rejected", r.w, r.res))
+   \o If(~want /\ r.res = 1, V("C14", idx, "json", "accepted although not an RFC 8259 JSON text", r.w, r.res))
+UriRec(r, idx) ==
+   LET want == R(r.w)!Derivable(r.rule) IN
+   If(r.res = 3, V("C20", idx, "uri", "the URI grammar threw something other than a parse_error", <<r.rule, r.w>>, r.res))
+   \o If(want /\ r.res # 1, V("C20", idx, "uri", "string derivable from the RFC 3986 production rejected", <<r.rule, r.w>>, r.res))
+   \o If(~want /\ r.res = 1, V("C20", idx, "uri", "accepted although not derivable from the RFC 3986 production", <<r.rule, r.w>>, r.res))
+
+-----------------------------------------------------------------------------
 Check(r, idx) ==
    CASE r.f = "lines" -> Lines(r, idx)
      [] r.f = "u8app" -> U8App(r, idx)
@@ -279,5 +294,7 @@ Check(r, idx) ==
      [] r.f = "u32agg" -> U32Agg(r, idx)
      [] r.f = "uint"  -> UIntRec(r, idx)
      [] r.f = "istr"  -> IStr(r, idx)
+     [] r.f = "json"  -> JsonRec(r, idx)
+     [] r.f = "uri"   -> UriRec(r, idx)
      [] OTHER -> <<V("C00", idx, r.f, "unknown observation record", 0, 0)>>
 =============================================================================
